@@ -12,7 +12,7 @@ LEVEL = ("Static structural conditions of schedule-independent determinism: no a
          "constant stream outside that image, every RNG-taking call in the worker gets that per-chain RNG, and every Settings::new_chain seeds "
          "the chain RNG from its rng argument only (R2); the worker closure captures only per-chain owned values, shared references to the "
          "Sync model/settings and the two per-chain Arc<Mutex<..>> created for this chain (R3); chains read no storage or progress state back "
-         "(R5); every computed draw is recorded exactly once whatever the timing of pause/resume commands (R6, shared with C12-R2). Order-sensitive iteration over default-hasher maps on record/finalize paths (R4) is decided by C14-R3. Bit-identity of "
+         "(R5); every computed draw is recorded exactly once whatever the timing of pause/resume commands (R6, shared with C12-R2). No order-sensitive iteration over default-hasher maps on the record / finalize / inspect paths (R4, shared with C14-R3): recorded values cannot depend on the per-process hash seed. Bit-identity of "
          "floating-point results as an observed fact is not decided.")
 EXPLANATION = ("Who-may-call over every MIR call site of the library crates against a table of ambient nondeterminism sources, static-item inventory, "
                "value-provenance (def-use trees) of RNG constructors and stream selectors, closure-capture inventory by type class; each zero-expected "
@@ -513,7 +513,8 @@ def run(F, R, config=None):
     R.assume("rand: seed_from_u64 / set_stream are pure; ChaCha8 streams with distinct ids are independent")
     R.assume("Model::math / Model::init_position / Math::* are supplied by the user and are deterministic functions of their arguments and the RNG they are handed")
     R.assume("floating-point kernels are deterministic on one machine (no rule can decide hardware behaviour)")
-    R.info("C10-R4", "order-sensitive iteration over default-hasher maps on record/finalize paths is decided by C14-R3 (shared rule)")
+    from . import c14
+    c14.r3(F, R, P, rid="C10-R4")
 
 
 def features(F):
